@@ -44,6 +44,16 @@ OK04(e) ==
         IF s.st = "ok" THEN e.poll.k = "ok" /\ e.poll.v = s.v /\ e.poll.total = Len(e.bytes)
         ELSE e.poll.k = "err"
 
+\* the type-nibble / flag table itself: Header::new_with(control byte, remaining length) for all 256 bytes
+HeaderRowOK(e) ==
+    \A i \in 1..Len(e.rls) :
+        LET h == ParseHeader(e.fam, <<e.hd>> \o EncVarInt(e.rls[i]))
+            r == e.rows[i]
+        IN  IF h.st = "ok" THEN
+                /\ r.k = "ok" /\ r.v.typ = h.v.typ /\ r.v.dup = h.v.dup /\ r.v.qos = h.v.qos
+                /\ r.v.retain = h.v.retain /\ r.v.remaining_len = e.rls[i]
+            ELSE r.k = "err" /\ r.e = h.e /\ r.a = h.a
+
 \* ---- C20
 Documented(m) ==
     CASE m \in {"hdr_type", "hdr_flags"} -> {"InvalidHeader"}
@@ -135,6 +145,7 @@ OK13Table(e) == /\ \A i \in 1..3 : TableRow(e.v3[i], "v3", e)
 
 Accept(e) ==
     CASE e.ev = "Strict"  -> (Prop = "C04" => OK04(e))
+      [] e.ev = "HeaderRow" -> (Prop = "C04" => HeaderRowOK(e))
       [] e.ev = "Mal"     -> (Prop = "C20" => OK20(e))
       [] e.ev = "Reenc"   -> (Prop = "C11" => OK11(e))
       [] e.ev = "Decoded" -> (Prop = "C12" => OK12(e))
